@@ -80,15 +80,22 @@ def _accept(res, f, inline):
         gs = C.if_guards(cfg, a)
         ifs = [(t, o) for t, o in gs if isinstance(t.ast, ast.If)]
         # support test
-        sup = [(t, o) for t, o in ifs if o is True and isinstance(t.ast.test, ast.Name)]
+        def _support_name(te):
+            if isinstance(te, ast.Name):
+                return te.id
+            if isinstance(te, ast.Compare) and len(te.ops) == 1 and isinstance(te.left, ast.Name) \
+                    and isinstance(te.ops[0], (ast.Gt, ast.NotEq)) and norm(te.comparators[0]) in ("0", "0.0"):
+                return te.left.id
+            return None
+        sup = [(t, o) for t, o in ifs if o is True and _support_name(t.ast.test)]
         sup_ok, w1 = False, None
         for t, o in sup:
-            d = df.single_def(t, t.ast.test.id)
+            d = df.single_def(t, _support_name(t.ast.test))
             if d is not None and isinstance(d.value, ast.Call) and dotted(d.value.func) in ("np.prod", "numpy.prod"):
                 inner = d.value.args[0] if d.value.args else None
                 if isinstance(inner, (ast.ListComp, ast.GeneratorExp)) and ".density(" in norm(inner.elt) and "trial_params" in norm(inner.elt) \
                         and norm(inner.generators[0].iter) == "range(self.numParam)":
-                    sup_ok, w1 = True, t.ast.test.id
+                    sup_ok, w1 = True, _support_name(t.ast.test)
         tag = "exit#%d" % k
         res.check(sup_ok, "R-ACCEPT", f, tag + ":support", "acceptance is under `if <product of prior densities at the trial point>`",
                   "the accepting exit `%s` is not dominated by a test of the prior density product over all parameters" % norm(a.ast), node=a.ast)
